@@ -3,8 +3,10 @@
 (* simulation.                                                                                        *)
 (*                                                                                                    *)
 (* One clock domain.  The design has inputs a, b (1 bit), s (2 bits) driven by the testbench before    *)
-(* each active edge, and three registers: cyc (4 bits, +1 every edge, the edge label), r (r <= a) and  *)
-(* t (toggles at edges where a = 1).  A program from the catalogue is a tree of If/Elif/Else and       *)
+(* each active edge, and four registers: cyc (4 bits, +1 every edge, the edge label), r (r <= a), t     *)
+(* (toggles at edges where a = 1) and q (2 bits, +1 modulo 4 at edges where b = 1).  Conditions of     *)
+(* Assert / Assume / If may be wider than one bit (q, s, s as a signed value, a masked value): they    *)
+(* are "zero" iff the WHOLE value is zero.  A program from the catalogue is a tree of If/Elif/Else and       *)
 (* Switch/Case blocks with Print and Assert/Assume statements at the leaves, all in the sync domain.   *)
 (*                                                                                                    *)
 (* Contract (guide, "Assertions", "Debug printing", "Control flow"):                                   *)
@@ -32,6 +34,8 @@ Or(x, y)  == [op |-> "or", x |-> x, y |-> y]
 Eq(x, k)  == [op |-> "eq", x |-> x, k |-> k]
 Bit(x, i) == [op |-> "bit", x |-> x, i |-> i]
 K(v)      == [op |-> "const", v |-> v]               \* 1-bit constant
+Mask(x, k) == [op |-> "mask", x |-> x, k |-> k]      \* x & k, k a constant of the width of x (multi-bit result)
+AsSigned(x, w) == [op |-> "signed", x |-> x, w |-> w]   \* the w-bit value x read as a signed number
 
 RECURSIVE Eval(_, _)
 Eval(e, env) ==
@@ -42,6 +46,10 @@ Eval(e, env) ==
       [] e.op = "or" -> IF Eval(e.x, env) = 1 \/ Eval(e.y, env) = 1 THEN 1 ELSE 0
       [] e.op = "eq" -> IF Eval(e.x, env) = e.k THEN 1 ELSE 0
       [] e.op = "bit" -> (Eval(e.x, env) \div (2^e.i)) % 2
+      [] e.op = "mask" -> LET v == Eval(e.x, env) IN
+                          (((v % 2) * (e.k % 2)) + 2 * (((v \div 2) % 2) * ((e.k \div 2) % 2)))
+                          + (4 * (((v \div 4) % 2) * ((e.k \div 4) % 2)) + 8 * (((v \div 8) % 2) * ((e.k \div 8) % 2)))
+      [] e.op = "signed" -> LET v == Eval(e.x, env) IN IF v >= 2^(e.w - 1) THEN v - 2^e.w ELSE v
 
 (* ------------------------------ statements ------------------------------ *)
 PrintS(id)      == [k |-> "print", kind |-> "", id |-> id, cond |-> K(1)]
@@ -84,7 +92,15 @@ Programs == <<
                                         Br(Eq(Sig("s"), 3), <<PrintS(4)>>)>>,
                                       <<AssertS(5, Or(Not(Sig("r")), Bit(Sig("s"), 1))), PrintS(6)>>)>>],
   [uses |-> {"a", "b"}, body |-> <<If(<<Br(K(0), <<PrintS(1), AssertS(2, K(0))>>), Br(And(Sig("a"), Not(Sig("b"))), <<PrintS(3)>>)>>, <<>>),
-                                   If(<<Br(Sig("t"), <<AssertS(4, Or(Sig("a"), Sig("b")))>>)>>, <<>>)>>]
+                                   If(<<Br(Sig("t"), <<AssertS(4, Or(Sig("a"), Sig("b")))>>)>>, <<>>)>>],
+  (* conditions wider than one bit: zero iff the whole value is zero *)
+  [uses |-> {"s"},      body |-> <<AssertS(1, Sig("s")), PrintS(2)>>],
+  [uses |-> {"b"},      body |-> <<PrintS(1), If(<<Br(Bit(Sig("cyc"), 1), <<AssumeS(2, Sig("q"))>>)>>, <<PrintS(3)>>)>>],
+  [uses |-> {"s", "b"}, body |-> <<If(<<Br(Sig("b"), <<AssertS(1, AsSigned(Sig("s"), 2)), PrintS(2)>>)>>, <<AssumeS(3, Mask(Sig("s"), 2))>>)>>],
+  [uses |-> {"s", "b"}, body |-> <<Switch(Sig("q"), 2, <<Case(<< <<"0","0">> >>, <<PrintS(1)>>),
+                                                        Case(<< <<"-","1">> >>, <<AssumeS(2, Sig("s")), PrintS(3)>>),
+                                                        Default(<<AssertS(4, Mask(Sig("cyc"), 6)), PrintS(5)>>)>>)>>],
+  [uses |-> {"a", "b"}, body |-> <<If(<<Br(Sig("q"), <<AssertS(1, AsSigned(Mask(Sig("q"), 2), 2))>>), Br(Sig("a"), <<PrintS(2)>>)>>, <<AssumeS(3, Mask(Sig("cyc"), 12))>>)>>]
 >>
 
 ASSUME PrintT(<<"PROGRAMS", Programs>>)
@@ -109,17 +125,18 @@ ExecStmt(st, env) ==
                 T == {i \in 1..Len(st.cases) : MatchCase(v, st.w, st.cases[i])} IN
             IF T = {} THEN <<>> ELSE ExecSeq(st.cases[Pick(T)].body, env)
 
-Env(a, b, s, rg) == [a |-> a, b |-> b, s |-> s, r |-> rg.r, t |-> rg.t, cyc |-> rg.cyc]
-NextRegs(a, rg) == [r |-> a, t |-> IF a = 1 THEN 1 - rg.t ELSE rg.t, cyc |-> (rg.cyc + 1) % 16]
+Env(a, b, s, rg) == [a |-> a, b |-> b, s |-> s, r |-> rg.r, t |-> rg.t, q |-> rg.q, cyc |-> rg.cyc]
+NextRegs(a, b, rg) == [r |-> a, t |-> IF a = 1 THEN 1 - rg.t ELSE rg.t, q |-> IF b = 1 THEN (rg.q + 1) % 4 ELSE rg.q,
+                       cyc |-> (rg.cyc + 1) % 16]
 
-Init == /\ p \in ProgIds /\ n = 0 /\ regs = [r |-> 0, t |-> 0, cyc |-> 0]
+Init == /\ p \in ProgIds /\ n = 0 /\ regs = [r |-> 0, t |-> 0, q |-> 0, cyc |-> 0]
         /\ ins = <<>> /\ hist = <<>> /\ emitted = <<>> /\ stop = <<>> /\ atstop = {}
 
 (* the events of one edge: evaluated once per step (bound by \E so that TLC does not re-evaluate the interpreter) *)
 Tick(a, b, s) ==
     /\ stop = <<>> /\ n < Limit(p)
     /\ LET env0 == Env(a, b, s, regs)
-           env == IF TMutant = "postedge" THEN [env0 EXCEPT !.r = NextRegs(a, regs).r, !.t = NextRegs(a, regs).t] ELSE env0
+           env == IF TMutant = "postedge" THEN [env0 EXCEPT !.r = NextRegs(a, b, regs).r, !.t = NextRegs(a, b, regs).t, !.q = NextRegs(a, b, regs).q] ELSE env0
            at == IF TMutant = "late" THEN regs.cyc + 1 ELSE regs.cyc
        IN \E evs \in {ExecSeq(Programs[p].body, env)} :
           \E prints \in {SelectSeq(evs, LAMBDA e : e.ev = "print")}, fails \in {SelectSeq(evs, LAMBDA e : e.ev = "fail")} :
@@ -131,7 +148,7 @@ Tick(a, b, s) ==
                   /\ UNCHANGED emitted
           /\ hist' = Append(hist, env0)
     /\ ins' = Append(ins, <<a, b, s>>)
-    /\ regs' = NextRegs(a, regs)
+    /\ regs' = NextRegs(a, b, regs)
     /\ n' = n + 1
     /\ UNCHANGED p
 
